@@ -35,6 +35,8 @@ pub struct LocalMetadataClient {
     shard_metadata: DashMap<String, crate::sharding::ShardMetadata>,
     /// Compaction leases
     compaction_leases: RwLock<CompactionLeases>,
+    /// Serializes compaction swaps (source check + target registration + source removal)
+    swap_lock: tokio::sync::Mutex<()>,
 }
 
 impl LocalMetadataClient {
@@ -48,6 +50,7 @@ impl LocalMetadataClient {
             split_states: DashMap::new(),
             shard_metadata: DashMap::new(),
             compaction_leases: RwLock::new(CompactionLeases::default()),
+            swap_lock: tokio::sync::Mutex::new(()),
         }
     }
 
@@ -277,6 +280,26 @@ impl MetadataClient for LocalMetadataClient {
             .insert(target_chunk.to_string(), new_level);
 
         Ok(())
+    }
+
+    async fn swap_compacted_chunk(
+        &self,
+        source_chunks: &[String],
+        target: &ChunkMetadata,
+    ) -> Result<()> {
+        // One swap at a time: of two compactions of the same sources only the first may find
+        // them, the other must be refused before it registers its target.
+        let _guard = self.swap_lock.lock().await;
+        for path in source_chunks {
+            if !self.chunks.contains_key(path) {
+                return Err(crate::Error::Metadata(format!(
+                    "Compaction source chunk no longer in catalog: {}",
+                    path
+                )));
+            }
+        }
+        self.register_chunk(&target.path, target).await?;
+        self.complete_compaction(source_chunks, &target.path).await
     }
 
     async fn update_compaction_status(&self, job_id: &str, status: CompactionStatus) -> Result<()> {
